@@ -34,7 +34,8 @@ type frame struct {
 	caller           *frame
 	fn               *ssa.Function
 	block, prevBlock *ssa.BasicBlock
-	env              map[ssa.Value]Value
+	env              []Value
+	info             *fnInfo
 	defers           *deferred
 	result           Value
 	panicking        bool
@@ -73,9 +74,10 @@ type nondetRec struct {
 
 // Interp is the per-worker interpreter state.
 type Interp struct {
-	P   *Program
-	sol *smt.Solver
-	ss  *smt.Session
+	P       *Program
+	fnInfos map[*ssa.Function]*fnInfo
+	sol     *smt.Solver
+	ss      *smt.Session
 
 	prefix  []int64
 	taken   []int64
@@ -98,16 +100,16 @@ type Interp struct {
 	postdoms  map[*ssa.Function]*pdomInfo
 
 	// per-path results
-	reached   map[string]int
-	observed  []string
-	viols     []Violation
-	asserts   int
-	assertsUn int // assertion queries that came back unknown
-	unknowns  int
+	reached      map[string]int
+	observed     []string
+	viols        []Violation
+	asserts      int
+	assertsUn    int // assertion queries that came back unknown
+	unknowns     int
 	inconclusive []string
-	harness   string
-	curFrame  *frame
-	userState map[string]any
+	harness      string
+	curFrame     *frame
+	userState    map[string]any
 	wantSample   bool
 	sampleModel  map[string]uint64
 	sampleScript []ScriptVal
@@ -190,6 +192,11 @@ var noInitPkgs = map[string]bool{
 	"testing": true, "log": true, "flag": true, "go/build": true,
 }
 
+// packages whose init has effects outside the package (hooks installed in
+// other packages) and must therefore run before their first function does,
+// not only before their first global is read
+var initOnCall = map[string]bool{"go/scanner": true}
+
 func skipInit(path string) bool {
 	if noInitPkgs[path] {
 		return true
@@ -254,10 +261,62 @@ func (in *Interp) get(fr *frame, key ssa.Value) Value {
 	case *ssa.Global:
 		return in.global(key)
 	}
-	if r, ok := fr.env[key]; ok {
-		return r
+	if i, ok := fr.info.idx[key]; ok {
+		return fr.env[i]
 	}
 	panic(fmt.Sprintf("get: no value for %T: %v in %s", key, key.Name(), fr.fn))
+}
+
+// fnInfo numbers the values of a function so that a frame's environment is
+// a slice rather than a map.
+type fnInfo struct {
+	idx map[ssa.Value]int32
+	n   int
+}
+
+func (in *Interp) fnInfoOf(fn *ssa.Function) *fnInfo {
+	if fi := in.fnInfos[fn]; fi != nil {
+		return fi
+	}
+	fi := &fnInfo{idx: map[ssa.Value]int32{}}
+	add := func(v ssa.Value) {
+		if _, ok := fi.idx[v]; !ok {
+			fi.idx[v] = int32(fi.n)
+			fi.n++
+		}
+	}
+	for _, p := range fn.Params {
+		add(p)
+	}
+	for _, fv := range fn.FreeVars {
+		add(fv)
+	}
+	for _, l := range fn.Locals {
+		add(l)
+	}
+	for _, b := range fn.Blocks {
+		for _, ins := range b.Instrs {
+			if v, ok := ins.(ssa.Value); ok {
+				add(v)
+			}
+		}
+	}
+	if fn.Recover != nil {
+		for _, ins := range fn.Recover.Instrs {
+			if v, ok := ins.(ssa.Value); ok {
+				add(v)
+			}
+		}
+	}
+	if in.fnInfos == nil {
+		in.fnInfos = map[*ssa.Function]*fnInfo{}
+	}
+	in.fnInfos[fn] = fi
+	return fi
+}
+
+func (fr *frame) set(k ssa.Value, v Value) {
+	fr.env[fr.info.idx[k]] = v
 }
 
 // ---- calls ----
@@ -296,6 +355,9 @@ func (in *Interp) callFn(fn *ssa.Function, args []Value, env []Value, caller *fr
 	if fn.TypeParams().Len() > 0 && len(fn.TypeArgs()) == 0 {
 		in.unsupported("uninstantiated generic function %s", fn)
 	}
+	if pk := fn.Pkg; pk != nil && !in.inited[pk] && initOnCall[pk.Pkg.Path()] {
+		in.ensureInit(pk)
+	}
 	fr := &frame{in: in, caller: caller, fn: fn}
 	if caller != nil {
 		fr.depth = caller.depth + 1
@@ -303,18 +365,19 @@ func (in *Interp) callFn(fn *ssa.Function, args []Value, env []Value, caller *fr
 			panic(pathEnd{"bound_exceeded", "call depth > " + fmt.Sprint(maxCallDepth) + " in " + fn.String()})
 		}
 	}
-	fr.env = make(map[ssa.Value]Value, 16)
+	fr.info = in.fnInfoOf(fn)
+	fr.env = make([]Value, fr.info.n)
 	fr.block = fn.Blocks[0]
 	for _, l := range fn.Locals {
 		p := new(Value)
 		*p = Zero(l.Type().Underlying().(*types.Pointer).Elem())
-		fr.env[l] = p
+		fr.set(l, p)
 	}
 	for i, p := range fn.Params {
-		fr.env[p] = args[i]
+		fr.set(p, args[i])
 	}
 	for i, fv := range fn.FreeVars {
-		fr.env[fv] = env[i]
+		fr.set(fv, env[i])
 	}
 	saved := in.curFrame
 	for fr.block != nil {
@@ -361,7 +424,7 @@ func (in *Interp) runFrame(fr *frame) {
 				tmp[i] = in.get(fr, instrs[i].(*ssa.Phi).Edges[pi])
 			}
 			for i := 0; i < nphi; i++ {
-				fr.env[instrs[i].(*ssa.Phi)] = tmp[i]
+				fr.set(instrs[i].(*ssa.Phi), tmp[i])
 			}
 		}
 		n := int64(len(instrs) - nphi)
@@ -476,10 +539,10 @@ func (in *Interp) visit(fr *frame, instr ssa.Instruction) continuation {
 	case *ssa.DebugRef:
 
 	case *ssa.UnOp:
-		fr.env[instr] = in.unop(instr, in.get(fr, instr.X))
+		fr.set(instr, in.unop(instr, in.get(fr, instr.X)))
 
 	case *ssa.BinOp:
-		fr.env[instr] = in.binop(instr.Op, instr.X.Type(), in.get(fr, instr.X), in.get(fr, instr.Y))
+		fr.set(instr, in.binop(instr.Op, instr.X.Type(), in.get(fr, instr.X), in.get(fr, instr.Y)))
 
 	case *ssa.Call:
 		if b, ok := instr.Call.Value.(*ssa.Builtin); ok {
@@ -487,27 +550,27 @@ func (in *Interp) visit(fr *frame, instr ssa.Instruction) continuation {
 			for _, a := range instr.Call.Args {
 				args = append(args, in.get(fr, a))
 			}
-			fr.env[instr] = in.callBuiltin(fr, b, args, &instr.Call)
+			fr.set(instr, in.callBuiltin(fr, b, args, &instr.Call))
 			in.curFrame = fr
 			break
 		}
 		{
 			fn, args := in.prepareCall(fr, &instr.Call)
-			fr.env[instr] = in.call(fn, args, fr)
+			fr.set(instr, in.call(fn, args, fr))
 			in.curFrame = fr
 		}
 
 	case *ssa.ChangeInterface:
-		fr.env[instr] = in.get(fr, instr.X)
+		fr.set(instr, in.get(fr, instr.X))
 
 	case *ssa.ChangeType:
-		fr.env[instr] = in.get(fr, instr.X)
+		fr.set(instr, in.get(fr, instr.X))
 
 	case *ssa.Convert:
-		fr.env[instr] = in.conv(instr.Type(), instr.X.Type(), in.get(fr, instr.X))
+		fr.set(instr, in.conv(instr.Type(), instr.X.Type(), in.get(fr, instr.X)))
 
 	case *ssa.MultiConvert:
-		fr.env[instr] = in.conv(instr.Type(), instr.X.Type(), in.get(fr, instr.X))
+		fr.set(instr, in.conv(instr.Type(), instr.X.Type(), in.get(fr, instr.X)))
 
 	case *ssa.SliceToArrayPointer:
 		x := in.get(fr, instr.X).([]Value)
@@ -516,19 +579,19 @@ func (in *Interp) visit(fr *frame, instr ssa.Instruction) continuation {
 			in.targetPanicMsg("cannot convert slice to array pointer: length too small")
 		}
 		if x == nil {
-			fr.env[instr] = (*Value)(nil)
+			fr.set(instr, (*Value)(nil))
 		} else {
 			in.unsupported("SliceToArrayPointer on non-nil slice")
 		}
 
 	case *ssa.MakeInterface:
-		fr.env[instr] = Iface{T: instr.X.Type(), V: in.get(fr, instr.X)}
+		fr.set(instr, Iface{T: instr.X.Type(), V: in.get(fr, instr.X)})
 
 	case *ssa.Extract:
-		fr.env[instr] = in.get(fr, instr.Tuple).(Tuple)[instr.Index]
+		fr.set(instr, in.get(fr, instr.Tuple).(Tuple)[instr.Index])
 
 	case *ssa.Slice:
-		fr.env[instr] = in.slice(instr, in.get(fr, instr.X), in.get(fr, instr.Low), in.get(fr, instr.High), in.get(fr, instr.Max))
+		fr.set(instr, in.slice(instr, in.get(fr, instr.X), in.get(fr, instr.Low), in.get(fr, instr.High), in.get(fr, instr.Max)))
 
 	case *ssa.Return:
 		switch len(instr.Results) {
@@ -597,12 +660,12 @@ func (in *Interp) visit(fr *frame, instr ssa.Instruction) continuation {
 		if !ok {
 			in.unsupported("symbolic channel size")
 		}
-		fr.env[instr] = &Chan{cap: int(n)}
+		fr.set(instr, &Chan{cap: int(n)})
 
 	case *ssa.Alloc:
 		p := new(Value)
 		*p = Zero(instr.Type().Underlying().(*types.Pointer).Elem())
-		fr.env[instr] = p
+		fr.set(instr, p)
 
 	case *ssa.MakeSlice:
 		ln := in.concreteInt(in.get(fr, instr.Len), "make len")
@@ -623,20 +686,20 @@ func (in *Interp) visit(fr *frame, instr ssa.Instruction) continuation {
 				s[i] = copyVal(z)
 			}
 		}
-		fr.env[instr] = s[:ln]
+		fr.set(instr, s[:ln])
 
 	case *ssa.MakeMap:
-		fr.env[instr] = newMap()
+		fr.set(instr, newMap())
 
 	case *ssa.Range:
-		fr.env[instr] = in.rangeIter(in.get(fr, instr.X))
+		fr.set(instr, in.rangeIter(in.get(fr, instr.X)))
 
 	case *ssa.Next:
 		switch it := in.get(fr, instr.Iter).(type) {
 		case *mapIter:
-			fr.env[instr] = it.next()
+			fr.set(instr, it.next())
 		case *strIter:
-			fr.env[instr] = it.next()
+			fr.set(instr, it.next())
 		default:
 			panic(fmt.Sprintf("Next on %T", it))
 		}
@@ -647,17 +710,17 @@ func (in *Interp) visit(fr *frame, instr ssa.Instruction) continuation {
 			for _, c := range sp.C {
 				np.C = append(np.C, symCand{&(*c.p).(Struct)[instr.Field], c.g})
 			}
-			fr.env[instr] = np
+			fr.set(instr, np)
 			break
 		}
 		p := in.get(fr, instr.X).(*Value)
 		if p == nil {
 			in.targetPanicMsg("invalid memory address or nil pointer dereference")
 		}
-		fr.env[instr] = &(*p).(Struct)[instr.Field]
+		fr.set(instr, &(*p).(Struct)[instr.Field])
 
 	case *ssa.Field:
-		fr.env[instr] = copyVal(in.get(fr, instr.X).(Struct)[instr.Field])
+		fr.set(instr, copyVal(in.get(fr, instr.X).(Struct)[instr.Field]))
 
 	case *ssa.IndexAddr:
 		x := in.get(fr, instr.X)
@@ -682,7 +745,7 @@ func (in *Interp) visit(fr *frame, instr ssa.Instruction) continuation {
 						np.C = append(np.C, symIndex(a, idx, c.g)...)
 					}
 				}
-				fr.env[instr] = np
+				fr.set(instr, np)
 				break
 			}
 			x = in.ptr(sp)
@@ -695,7 +758,7 @@ func (in *Interp) visit(fr *frame, instr ssa.Instruction) continuation {
 			if !in.decide(sym.ULt(idx, sym.BV(uint64(len(base)), 64))) {
 				in.targetPanicMsg(fmt.Sprintf("index out of range [symbolic] with length %d", len(base)))
 			}
-			fr.env[instr] = &SymPtr{C: symIndex(base, idx, nil)}
+			fr.set(instr, &SymPtr{C: symIndex(base, idx, nil)})
 			return true
 		}
 		switch x := x.(type) {
@@ -704,7 +767,7 @@ func (in *Interp) visit(fr *frame, instr ssa.Instruction) continuation {
 				break
 			}
 			i := in.indexValue(in.get(fr, instr.Index), instr.Index.Type(), len(x))
-			fr.env[instr] = &x[i]
+			fr.set(instr, &x[i])
 		case *Value:
 			if x == nil {
 				in.targetPanicMsg("invalid memory address or nil pointer dereference")
@@ -714,7 +777,7 @@ func (in *Interp) visit(fr *frame, instr ssa.Instruction) continuation {
 				break
 			}
 			i := in.indexValue(in.get(fr, instr.Index), instr.Index.Type(), len(a))
-			fr.env[instr] = &a[i]
+			fr.set(instr, &a[i])
 		default:
 			panic(fmt.Sprintf("IndexAddr on %T", x))
 		}
@@ -723,9 +786,9 @@ func (in *Interp) visit(fr *frame, instr ssa.Instruction) continuation {
 		x := in.get(fr, instr.X)
 		switch x := x.(type) {
 		case Array:
-			fr.env[instr] = in.indexRead(x, in.get(fr, instr.Index), instr.Index.Type())
+			fr.set(instr, in.indexRead(x, in.get(fr, instr.Index), instr.Index.Type()))
 		case string, *SymStr:
-			fr.env[instr] = in.strIndex(x, in.get(fr, instr.Index), instr.Index.Type())
+			fr.set(instr, in.strIndex(x, in.get(fr, instr.Index), instr.Index.Type()))
 		default:
 			panic(fmt.Sprintf("Index on %T", x))
 		}
@@ -734,7 +797,7 @@ func (in *Interp) visit(fr *frame, instr ssa.Instruction) continuation {
 		x := in.get(fr, instr.X)
 		switch x := x.(type) {
 		case string, *SymStr:
-			fr.env[instr] = in.strIndex(x, in.get(fr, instr.Index), instr.Index.Type())
+			fr.set(instr, in.strIndex(x, in.get(fr, instr.Index), instr.Index.Type()))
 		case *Map:
 			e := in.mapFind(x, in.get(fr, instr.Index))
 			var v Value
@@ -744,9 +807,9 @@ func (in *Interp) visit(fr *frame, instr ssa.Instruction) continuation {
 				v = Zero(instr.X.Type().Underlying().(*types.Map).Elem())
 			}
 			if instr.CommaOk {
-				fr.env[instr] = Tuple{v, sym.Bool(e != nil)}
+				fr.set(instr, Tuple{v, sym.Bool(e != nil)})
 			} else {
-				fr.env[instr] = v
+				fr.set(instr, v)
 			}
 		default:
 			panic(fmt.Sprintf("Lookup on %T", x))
@@ -757,14 +820,14 @@ func (in *Interp) visit(fr *frame, instr ssa.Instruction) continuation {
 		in.mapInsert(m, in.get(fr, instr.Key), copyVal(in.get(fr, instr.Value)))
 
 	case *ssa.TypeAssert:
-		fr.env[instr] = in.typeAssert(instr, in.get(fr, instr.X).(Iface))
+		fr.set(instr, in.typeAssert(instr, in.get(fr, instr.X).(Iface)))
 
 	case *ssa.MakeClosure:
 		var bindings []Value
 		for _, b := range instr.Bindings {
 			bindings = append(bindings, in.get(fr, b))
 		}
-		fr.env[instr] = &Closure{instr.Fn.(*ssa.Function), bindings}
+		fr.set(instr, &Closure{instr.Fn.(*ssa.Function), bindings})
 
 	case *ssa.Select:
 		// sequential semantics: the first ready case, else default, else blocked
@@ -801,7 +864,7 @@ func (in *Interp) visit(fr *frame, instr ssa.Instruction) continuation {
 				}
 			}
 		}
-		fr.env[instr] = r
+		fr.set(instr, r)
 
 	default:
 		panic(fmt.Sprintf("unexpected instruction %T", instr))
